@@ -5,6 +5,7 @@ package main
 
 import (
 	"fmt"
+	"sort"
 
 	"github.com/sylabs/sif/v2/pkg/sif"
 )
@@ -31,6 +32,8 @@ type Profile struct {
 	Cli         bool // C15: histories of siftool invocations
 	Foreign     int // per-mille probability that a history starts from a foreign (Lean-encoded) image
 	BadMagic    int // per-mille probability, among foreign images, of a non-canonical magic/version
+	TornHeader  bool // histories include "reopened after an add that was interrupted before its header write"
+	Truncs      bool // histories include "the file is cut short inside an object, then opened again"
 }
 
 type Gen struct {
@@ -138,7 +141,7 @@ func (g *Gen) validDI(allowPrimary bool) DI {
 	g.count(fmt.Sprintf("dt:%x", dt))
 	if r.Chance(1, 8) || ((dt == 0x400A || dt == 0x400B) && r.Chance(1, 3)) {
 		// a seekable source handed over in the middle of a larger stream (after a framing header)
-		di.Seekable = pick(r, []string{"bytes", "bytes", "file"})
+		di.Seekable = pick(r, []string{"bytes", "bytes", "file", "dataeof", "dataeof"})
 		di.Pre = pick(r, []int{0, 1, 16, 512, 4096})
 		g.count("reader:seekable-" + di.Seekable)
 	}
@@ -329,6 +332,23 @@ func (g *Gen) createOp() *Op {
 			n = r.Intn(7)
 		}
 	}
+	crowded := false
+	if g.p.MaxCap > 0 && r.Chance(1, 30) {
+		// a crowded image: a descriptor table larger than the 32 KiB and 64 KiB buffers I/O layers
+		// use (57+ and 113+ slots), nearly or exactly full
+		cap = pick(r, []int{57, 64, 113, 120})
+		n = cap - pick(r, []int{0, 1, 1, 2, 8})
+		for k := range op.COpts {
+			if op.COpts[k].Kind == "cap" {
+				op.COpts[k].I = int64(cap)
+			}
+		}
+		if len(op.COpts) == 0 || op.COpts[0].Kind != "cap" {
+			op.COpts = append([]CreateOpt{{Kind: "cap", I: int64(cap)}}, op.COpts...)
+		}
+		crowded = true
+		g.count("create:crowded-table")
+	}
 	if r.Intn(1000) < g.p.Rejects/8 {
 		n = cap + 1
 		g.count("reject:create-overfull")
@@ -338,6 +358,13 @@ func (g *Gen) createOp() *Op {
 		havePrim := false
 		for i := 0; i < n; i++ {
 			di := g.validDI(!havePrim)
+			if crowded && i >= 4 {
+				// keep crowded images small: tiny unaligned objects after the first few
+				di = DI{DT: 0x4007, Fail: -1, Data: DataSpec{Lit: r.Bytes(1 + r.Intn(3))}}
+				if r.Chance(1, 2) {
+					di.Opts = append(di.Opts, DIOpt{Kind: "group", N: pick(r, groupChoices)})
+				}
+			}
 			for _, o := range di.Opts {
 				if o.Kind == "part" && o.J == 2 {
 					havePrim = true
@@ -434,7 +461,34 @@ func (g *Gen) nextOp(f *sif.FileImage) *Op {
 			}
 		}
 		g.count("op:sign")
-		return &Op{Kind: "sign", S: SOpts{PGP: -1, DSSE: []int{k}, T: g.topt()}}
+		so := SOpts{PGP: -1, DSSE: []int{k}, T: g.topt()}
+		if r.Chance(1, 3) {
+			// one request naming objects of several groups: one signature per group, in group order
+			byGroup := map[uint32][]uint32{}
+			f.WithDescriptors(func(d sif.Descriptor) bool {
+				if gid := d.GroupID(); gid != 0 && d.DataType() != sif.DataSignature {
+					byGroup[gid] = append(byGroup[gid], d.ID())
+				}
+				return false
+			})
+			var set []uint32
+			for _, ids := range byGroup {
+				set = append(set, ids[0])
+				if len(ids) > 1 && r.Chance(1, 2) {
+					set = append(set, ids[len(ids)-1])
+				}
+			}
+			if len(byGroup) > 1 {
+				sort.Slice(set, func(a, b int) bool { return set[a] < set[b] })
+				for i := len(set) - 1; i > 0; i-- { // any order of mention
+					j := r.Intn(i + 1)
+					set[i], set[j] = set[j], set[i]
+				}
+				so.ObjSets = [][]uint32{set}
+				g.count("op:sign-objects-across-groups")
+			}
+		}
+		return &Op{Kind: "sign", S: so}
 	}
 	x := r.Intn(100)
 	switch {
@@ -446,6 +500,15 @@ func (g *Gen) nextOp(f *sif.FileImage) *Op {
 			op.DI = g.validDI(!in.hasPrim)
 			if len(in.ids) > 0 && r.Chance(1, 10) {
 				op.DI.Src = pick(r, in.ids) // copy of an object of the same image, streamed from it
+			}
+			if op.DI.DT != 0x4004 && op.DI.DT != 0x400A && op.DI.DT != 0x400B && r.Chance(1, 12) {
+				// application metadata that happens to look like another type's record: a
+				// partition record (fs, type, arch) on an object that is not a partition
+				b := make([]byte, 12)
+				b[0], b[4] = byte(1+r.Intn(5)), byte(1+r.Intn(4))
+				copy(b[8:], []byte{'0', byte('1' + r.Intn(9)), 0})
+				op.DI.Opts = append(op.DI.Opts, DIOpt{Kind: "md", MD: MD{Kind: "raw", B: b}})
+				g.count("md:partition-record-on-non-partition")
 			}
 			if len(in.ociDigest) > 0 && op.DI.DT != 0x400A && op.DI.DT != 0x400B && op.DI.DT != 0x4004 && r.Chance(1, 5) {
 				// an object of another type annotated with the digest text of an OCI blob of the image
@@ -521,6 +584,21 @@ func (g *Gen) nextOp(f *sif.FileImage) *Op {
 		g.count("op:setoci")
 		return op
 	default:
+		if g.p.Truncs && len(in.ids) > 0 && r.Chance(1, 4) {
+			// the image is cut short inside (or at the start of) its last objects behind the
+			// library's back, and opened again
+			var cuts []int64
+			f.WithDescriptors(func(d sif.Descriptor) bool {
+				if d.Size() > 0 {
+					cuts = append(cuts, d.Offset(), d.Offset()+d.Size()/2, d.Offset()+d.Size()-1)
+				}
+				return false
+			})
+			if len(cuts) > 0 {
+				g.count("op:file-cut-short")
+				return &Op{Kind: "ftrunc", Lib: true, N: pick(r, cuts)}
+			}
+		}
 		g.count("op:reload")
 		return &Op{Kind: "reload"}
 	}
